@@ -16,36 +16,36 @@ let coord_parse (line : string) : string =
   | None -> "err"
   | Some c -> "ok " ^ show_coord c ^ " print=" ^ hex_of_str (print_coord c)
 
-(* schema description (names are ASCII):
+(* coord_schema description (names are ASCII):
      types:  Name:kind:attr(arg,arg)/attr()/...   separated by ';'   kind in s,o,i,u,e,n
      dirs:   name(arg,arg)                         separated by ';'
    line: <types> <dirs> <coord>     with '-' for an empty part
    coord: T:Ty | A:Ty,attr | F:Ty,f,a | D:d | G:d,a *)
-let parse_field (s : string) : fielddef =
+let parse_field (s : string) : coord_field =
   let i = String.index s '(' in
   let name = String.sub s 0 i in
   let args = String.sub s (i+1) (String.length s - i - 2) in
-  { f_name = str_of_ascii name; f_args = List.map str_of_ascii (split_on ',' args) }
+  { cf_name = str_of_ascii name; cf_args = List.map str_of_ascii (split_on ',' args) }
 
 let kind_of = function
-  | "s" -> KScalar | "o" -> KObject | "i" -> KInterface | "u" -> KUnion | "e" -> KEnum | "n" -> KInput
+  | "s" -> CKScalar | "o" -> CKObject | "i" -> CKInterface | "u" -> CKUnion | "e" -> CKEnum | "n" -> CKInput
   | _ -> failwith "kind"
 let kind_str = function
-  | KScalar -> "s" | KObject -> "o" | KInterface -> "i" | KUnion -> "u" | KEnum -> "e" | KInput -> "n"
+  | CKScalar -> "s" | CKObject -> "o" | CKInterface -> "i" | CKUnion -> "u" | CKEnum -> "e" | CKInput -> "n"
 
-let parse_type (s : string) : (str * tydef) =
+let parse_type (s : string) : (str * coord_type) =
   match String.split_on_char ':' s with
   | [name; k; attrs] ->
     let fs = List.map parse_field (split_on '/' attrs) in
     (str_of_ascii name,
-     { t_name = str_of_ascii name; t_kind = kind_of k; t_attrs = List.map (fun f -> (f.f_name, f)) fs })
+     { ct_name = str_of_ascii name; ct_kind = kind_of k; ct_attrs = List.map (fun f -> (f.cf_name, f)) fs })
   | _ -> failwith "type"
 
-let parse_schema (types : string) (dirs : string) : schema =
+let parse_schema (types : string) (dirs : string) : coord_schema =
   let types = if types = "-" then "" else types in
   let dirs = if dirs = "-" then "" else dirs in
-  { s_types = List.map parse_type (split_on ';' types);
-    s_dirs = List.map (fun d -> let f = parse_field d in (f.f_name, f)) (split_on ';' dirs) }
+  { cs_types = List.map parse_type (split_on ';' types);
+    cs_dirs = List.map (fun d -> let f = parse_field d in (f.cf_name, f)) (split_on ';' dirs) }
 
 let parse_coord_desc (s : string) : coord =
   let tag = String.sub s 0 1 in
@@ -58,17 +58,17 @@ let parse_coord_desc (s : string) : coord =
   | "G", [d; a] -> CDirArg (d, a)
   | _ -> failwith "coord"
 
-let coord_lookup (line : string) : string =
+let fam_coord_lookup (line : string) : string =
   match String.split_on_char ' ' line with
   | types :: dirs :: c :: _ ->
-    (match lookup (parse_coord_desc c) (parse_schema types dirs) with
-     | RErr _ -> "err"
-     | ROk (FType (n, k)) -> "ok type:" ^ kind_str k ^ " " ^ ascii_of_str n
-     | ROk (FDirective n) -> "ok directive " ^ ascii_of_str n
-     | ROk (FField n) -> "ok field " ^ ascii_of_str n
-     | ROk (FInputField n) -> "ok inputfield " ^ ascii_of_str n
-     | ROk (FEnumValue n) -> "ok enumvalue " ^ ascii_of_str n
-     | ROk (FArgument n) -> "ok argument " ^ ascii_of_str n)
+    (match coord_lookup (parse_coord_desc c) (parse_schema types dirs) with
+     | CoordErr _ -> "err"
+     | CoordOk (CFType (n, k)) -> "ok type:" ^ kind_str k ^ " " ^ ascii_of_str n
+     | CoordOk (CFDirective n) -> "ok directive " ^ ascii_of_str n
+     | CoordOk (CFField n) -> "ok field " ^ ascii_of_str n
+     | CoordOk (CFInputField n) -> "ok inputfield " ^ ascii_of_str n
+     | CoordOk (CFEnumValue n) -> "ok enumvalue " ^ ascii_of_str n
+     | CoordOk (CFArgument n) -> "ok argument " ^ ascii_of_str n)
   | _ -> failwith "coord_lookup line"
 
-let families = [ ("coord_parse", coord_parse); ("coord_lookup", coord_lookup) ]
+let families = [ ("coord_parse", coord_parse); ("coord_lookup", fam_coord_lookup) ]
